@@ -161,6 +161,32 @@ func vestStateStr(x *Exec, f *vestFam, ctx sdk.Context) string {
 		strings.Join(tt, ";"), k.GetVestingAccountTraceCount(ctx), inv(b1), inv(b2), inv(b3))
 }
 
+// withdrawn counter per owner~pool-name (summed over pools sharing a name) out of a state string
+func poolsWithdrawn(state string) map[string]sdk.Int {
+	out := map[string]sdk.Int{}
+	pools := strings.TrimSuffix(strings.TrimPrefix(fieldOf(state, "pools"), "["), "]")
+	if pools == "" {
+		return out
+	}
+	for _, e := range strings.Split(pools, ";") {
+		p := strings.Split(e, "~")
+		if len(p) < 9 {
+			continue
+		}
+		v, ok := sdk.NewIntFromString(p[6])
+		if !ok {
+			continue
+		}
+		key := strings.ToLower(p[0]) + "~" + p[1]
+		if cur, ok := out[key]; ok {
+			out[key] = cur.Add(v)
+		} else {
+			out[key] = v
+		}
+	}
+	return out
+}
+
 func peekAccNum(x *Exec, ctx sdk.Context) uint64 {
 	c, _ := ctx.CacheContext()
 	return x.env.app.AccountKeeper.GetNextAccountNumber(c)
@@ -218,6 +244,57 @@ func vestDeliver(x *Exec, f *vestFam, op string, vb func() error, h func(ctx sdk
 		}
 	}
 	after := vestStateStr(x, f, x.ctx)
+	if res == "ok" {
+		// C18: every WithdrawAvailable event of an accepted message (withdraw-all, and the implicit
+		// withdrawal of a pool send) reports, per pool, exactly what was withdrawn from that pool
+		wb, wa := poolsWithdrawn(before), poolsWithdrawn(after)
+		evSum := map[string]sdk.Int{}
+		for _, e := range evs {
+			p := strings.Split(e, "~")
+			if len(p) < 4 {
+				continue
+			}
+			v, ok := sdk.NewIntFromString(p[len(p)-1])
+			if !ok {
+				continue
+			}
+			key := strings.ToLower(p[1]) + "~" + p[2]
+			if cur, ok := evSum[key]; ok {
+				evSum[key] = cur.Add(v)
+			} else {
+				evSum[key] = v
+			}
+		}
+		keys := map[string]bool{}
+		for k := range wa {
+			keys[k] = true
+		}
+		for k := range evSum {
+			keys[k] = true
+		}
+		var sorted []string
+		for k := range keys {
+			sorted = append(sorted, k)
+		}
+		sort.Strings(sorted)
+		for _, k := range sorted {
+			delta := sdk.ZeroInt()
+			if a, ok := wa[k]; ok {
+				delta = a
+			}
+			if b, ok := wb[k]; ok {
+				delta = delta.Sub(b)
+			}
+			ev := sdk.ZeroInt()
+			if e, ok := evSum[k]; ok {
+				ev = e
+			}
+			if !ev.Equal(delta) {
+				x.hit("C18", "withdraw-events-per-pool", op, fmt.Sprintf("pool %s: events report %s, withdrawn from the pool %s", k, ev, delta))
+				break
+			}
+		}
+	}
 	if res != "ok" && after != before {
 		x.hit("C05", "rejected-message-changed-state", op, firstDiff(before, after))
 	}
